@@ -200,6 +200,11 @@ class SccCaptionParagraph:
     if new_cursor_position < 0:
       self._current_line.indent(new_cursor_position)
 
+    gap = new_cursor_position - self._current_line.get_length()
+    if gap > 0:
+      # Fill the gap between the end of the line and the cursor position with spaces
+      self._current_line.add_text(SccCaptionText(" " * gap))
+
     self._current_line.set_cursor(new_cursor_position)
 
   def get_lines(self) -> Dict[int, SccCaptionLine]:
